@@ -7,6 +7,8 @@ from .. import paths
 from ..core import FUNC, call_attr, calls_in, const, dotted, is_const, kwarg, norm, slice_parts, text, walk_local
 
 EXPLANATION = [
+    'C17.avdtp-restart: in the AVDTP MessageAssembler the branch that abandons an unfinished message on a new START / SINGLE packet does not return: the new packet is processed, so the request after a malformed one is answered.',
+    "C17.sdp-watchdog: (shared with C19.sdp-watchdog) each continuation loop of the SDP client runs under `watchdog > 0` and ends with an unconditional `watchdog -= 1`: a server that always answers 'more' is given up on after SDP_CONTINUATION_WATCHDOG rounds.",
     "C17.peer-mtu-floor: the MTU taken from a peer's Configure Request is bounded below (max(value, L2CAP minimum)) before it is stored, so AVDTP's and RFCOMM's fragment sizes derived from it stay positive.",
     'C17.records-not-aliased: every local container that a method of sdp.Server modifies in place (+=, append, sort, ...) is bound only to containers the method created (literals, comprehensions, list() / sorted() / copies): a request cannot alias and edit a registered service record.',
     'C17.dm-refuses-open: in Multiplexer.on_dm_frame every path taken while the multiplexer is OPENING changes the state and settles the pending open_result (path rule): a DM cannot be ignored while an open is pending.',
@@ -1114,7 +1116,31 @@ def peer_mtu_floor(ctx):
                 'the peer\'s MTU option is stored as it comes: a peer announcing an MTU of 0..3 makes AVDTP compute a fragment size <= 0 and loop for ever on the first response with a payload (RFCOMM likewise computes a frame size of 0)', p.loc(st))
 
 
+def sdp_watchdog_rule(ctx):
+    from .c19 import sdp_watchdog
+    sdp_watchdog(ctx, 'C17.sdp-watchdog')
+
+
+def avdtp_restart(ctx, rule='C17.avdtp-restart'):
+    """A START or SINGLE packet that arrives while an earlier message is unfinished abandons that message and is itself
+    processed: after the reset the assembler goes on with the new packet (no return), so a well-formed command sent after a
+    truncated or dangling one is answered."""
+    R, p = ctx.r, ctx.p
+    fn = p.find('bumble.avdtp.MessageAssembler.on_pdu')
+    if fn is None:
+        R.bad(rule, 'bumble.avdtp.MessageAssembler.on_pdu', 'anchor missing')
+        return
+    brs = [n for n in walk_local(fn) if isinstance(n, ast.If) and any(isinstance(c, ast.Call) and dotted(c.func) == 'self.reset' for s_ in n.body for c in ast.walk(s_)) and 'self.message' in norm(n.test)]
+    R.check(len(brs) >= 1, rule, 'bumble.avdtp.MessageAssembler.on_pdu | unfinished message', f'{len(brs)} branch(es) abandon an unfinished message', 'the branch that abandons an unfinished message was not found', p.loc(fn))
+    for br in brs:
+        leaves = [x for s_ in br.body for x in ast.walk(s_) if isinstance(x, (ast.Return, ast.Raise))]
+        R.check(not leaves, rule, 'bumble.avdtp.MessageAssembler.on_pdu | new packet still processed', 'after the reset the START / SINGLE packet that caused it is processed',
+                'the packet that interrupts an unfinished message is dropped together with it: after a truncated command or a dangling START (both leave the assembler mid-message) the next well-formed command is silently discarded', p.loc(br))
+
+
 RULES = [
+    ('C17.avdtp-restart', avdtp_restart),
+    ('C17.sdp-watchdog', sdp_watchdog_rule),
     ('C17.peer-mtu-floor', peer_mtu_floor),
     ('C17.records-not-aliased', records_not_aliased),
     ('C17.dm-refuses-open', dm_refuses_open),
